@@ -1023,7 +1023,7 @@ unsafe fn wait_impl(t: u8, pid: pid_t, status: *mut c_int, options: c_int) -> pi
                     return fin(t, Call::Waitpid, [pid as i64, options as i64, blocked as i64], Err(libc::EINTR)) as pid_t;
                 }
                 blocked = true;
-                sched_block(t, Wait::Child(pid), None);
+                sched_block(t, Wait::Child(pid, options), None);
             }
         }
     }
@@ -1091,6 +1091,11 @@ pub unsafe extern "C" fn killpg(pgrp: pid_t, sig: c_int) -> c_int {
 
 /// stat family and access(): answered from the simulated file system for simulated contexts.
 unsafe fn stat_impl(path: *const c_char, want_mode: Option<c_int>) -> Result<u32, i32> {
+    if path.is_null() {
+        // std's one-time probe "is statx() available?" (expects EFAULT): it happens once per
+        // process, so it must leave no trace in the run
+        return Err(libc::EFAULT);
+    }
     let who = match ctx() {
         Ctx::Par(t) => {
             par_enter(t, Call::Other);
@@ -1099,9 +1104,6 @@ unsafe fn stat_impl(path: *const c_char, want_mode: Option<c_int>) -> Result<u32
         Ctx::Child => child_ctx().pid,
         Ctx::Real => unreachable!(),
     };
-    if path.is_null() {
-        return Err(libc::EFAULT);
-    }
     let p = cstr_bytes(path);
     let s = sim();
     s.k.probe("stat_or_access_by_library");
